@@ -30,7 +30,7 @@ func init() {
 		ID:    "C03",
 		Level: "exploration",
 		Rule: "E1 bounded-exhaustive enumeration in two builds: (a) complete: every level mask of height ≤H × every node of the tree (all 2^(h+1)-1 paths), PathToIndexLoose on every node and PathToIndex on every node of a stored level, oracle = explicit recursive pre-order walk numbering stored nodes; " +
-			"(b) tall: for every height ≤30 a mask family (full, leaf-only, one level missing, one or two extra levels stored, two alternating patterns) × a path family per length (all-0, all-1, alternating, single-1 and single-0 at every position), oracle = closed form (stored ancestors + stored size of skipped left subtrees) which is itself cross-checked against the walk on every case of (a). " +
+			"(b) tall: for every height ≤30 a mask family (full, leaf-only, one level missing, one or two extra levels stored, two alternating patterns, every combination of the five lowest levels and of the five levels right below the top) × a path family per length (all-0, all-1, alternating, single-1 and single-0 at every position), oracle = closed form (stored ancestors + stored size of skipped left subtrees) which is itself cross-checked against the walk on every case of (a). " +
 			"The same enumeration is executed by a second binary built with -tags debug (contracts active), with a smaller complete bound. A case is one (mask, node, function, build); non-trivial when the mask is neither full nor leaf-only and the node is not the root.",
 		Assumptions: []string{
 			"complete only below the height bound; tall trees are covered on the mask/path families",
@@ -90,6 +90,14 @@ func c03MaskFamily(h int) []int32 {
 	}
 	add(top | full&0x55555555)
 	add(top | full&0x2aaaaaaa)
+	// every combination of the five lowest levels, and of the five levels right below the top
+	for k := int64(0); k < 32; k++ {
+		add(top | k)
+		if h > 5 {
+			add(top | k<<uint(h-5))
+			add(top | k | k<<uint(h-5))
+		}
+	}
 	return out
 }
 
